@@ -590,7 +590,7 @@ pub fn check(ctx: &Ctx) -> Vec<PartReport> {
             require: vec![],
         },
     ));
-    let n = ctx.cases(6_000, 80_000);
+    let n = ctx.cases(20_000, 80_000);
     out.push(run_part(
         ctx,
         PartSpec {
